@@ -264,4 +264,89 @@ theorem F3_witness :
       (250, 300) ∈ fullWindows 100 300 50 ∧ (250, 300) ∉ pairs (arange 100 300 50) := by
   decide +kernel
 
+/-! ## `downsampled_like` (`pw = false` is the code as it is; `pw = true` the proposed repair of F9) -/
+
+/-- For a reference with strictly increasing timestamps the two returned channels carry identical
+    timestamps, and the cropped reference is a contiguous run `reference[i:j]` of the reference. -/
+theorem like_same_timestamps (pw : Bool) (f : List Rat → Rat) (s ref : Src) (ds refc : List Sample)
+    (h : like pw f s ref = .ok (ds, refc)) (hs : (ref.timestamps).Pairwise (· < ·)) :
+    ds.map (·.1) = refc.map (·.1) ∧ ∃ r i j, ref = .ts r ∧ refc = (r.take j).drop i :=
+  like_same' pw f s ref ds refc h hs
+
+/-- Every returned sample is `f` of exactly the source samples inside its window `[T - δ, T)`, where
+    `(T, δ)` runs through the kept slice of the reference timestamps zipped with the window lengths
+    `likeDeltas` (closed form of the repair: `repair_spec`). -/
+theorem like_value_spec (pw : Bool) (f : List Rat → Rat) (c : Cont) (hdt : 0 < c.dt) (ref : Src)
+    (ds refc : List Sample) (h : like pw f (.cont c) ref = .ok (ds, refc)) :
+    ds = (likeKept pw c ref.timestamps).map (fun (p : Int × Int) =>
+        (p.1, f ((c.samples.filter (inWin (p.1 - p.2) p.1)).map (·.2)))) ∧
+      ∃ i j : Nat, likeKept pw c ref.timestamps =
+        ((ref.timestamps.zip (likeDeltas ref.timestamps)).take j).drop i := by
+  refine ⟨like_values' pw f c hdt ref ds refc h, ?_⟩
+  obtain ⟨i, j, hk, _⟩ := likeKept_slice pw c ref.timestamps
+  exact ⟨i, j, hk⟩
+
+/-- Which reference samples are kept, as the code is: for a sorted reference exactly those with
+    `T - δ₀ ≥ start` and `T < stop`, δ₀ being the FIRST window length — not the sample's own window
+    length, which is finding F9. -/
+theorem like_kept_spec (c : Cont) (T : List Int) (hs : T.Pairwise (· < ·)) :
+    likeKept false c T = (T.zip (likeDeltas T)).filter fun p =>
+      decide (c.start ≤ p.1 - (likeDeltas T).headD 0) && decide (p.1 < c.stop) :=
+  likeKept_spec' c T hs
+
+/-- Closed form of the sequential change-point repair (`delta_time[i + 1] = delta_time[i + 2]` for
+    every `i` with `d[i] < d[i+1]`, abandoned at the first `IndexError`): a period longer than its
+    predecessor is replaced by its successor when there is one; every other period is unchanged. -/
+theorem repair_spec (d : List Int) (j : Nat) :
+    (repair d)[j]? =
+      if 1 ≤ j ∧ j + 1 < d.length ∧ d.getD (j - 1) 0 < d.getD j 0 then d[j + 1]? else d[j]? :=
+  repair_getElem? d j
+
+/-- The pylake test reference: one long frame (18) at a frame-rate change 4 → 6, then 6 → 4. -/
+example : repair [4, 4, 4, 4, 18, 6, 6, 4, 4] = [4, 4, 4, 4, 6, 6, 6, 4, 4] := by decide
+example : likeDeltas [0, 4, 8, 12, 16, 34, 40, 46, 50, 54] = [4, 4, 4, 4, 4, 6, 6, 6, 4, 4] := by decide
+
+/-- Non-vacuity of the `like` theorems: the input of pylake's own test. -/
+example : (like false Reduce.mean.apply
+      (.cont ⟨0, 2, [1, 1, 2, 2, 3, 3, 4, 4, 5, 5, 5, 5, 5, 5, 6, 6, 6, 7, 7, 7, 8, 8, 8, 9, 9, 9]⟩)
+      (.ts [(0, 0), (4, 1), (8, 2), (12, 3), (16, 4), (34, 6), (40, 7), (46, 8), (50, 9), (54, 10)])).toOption
+    = some ([(4, 1), (8, 2), (12, 3), (16, 4), (34, 6), (40, 7), (46, 8), (50, 9)],
+            [(4, 1), (8, 2), (12, 3), (16, 4), (34, 6), (40, 7), (46, 8), (50, 9)]) := by decide +kernel
+
+/-- Finding F9, kernel-checked: reference periods 10,10,30,30,30 and a source that starts at 65.
+    The code keeps the reference sample at 80 (because 80 - δ₀ = 70 ≥ 65) although its window
+    `[50, 80)` begins before the source; the value 1 is the mean of the three samples in `[65, 80)`
+    only.  With the per-window start index (`pw = true`) the first kept sample is 110. -/
+theorem F9_witness :
+    (like false Reduce.mean.apply (.cont ⟨65, 5, (List.range 20).map fun (i : Nat) => (i : Rat)⟩)
+        (.ts [(0, 0), (10, 1), (20, 2), (50, 3), (80, 4), (110, 5)])).toOption.map (·.1)
+      = some [(80, 1), (110, 11 / 2)] ∧
+    likeKept false ⟨65, 5, (List.range 20).map fun (i : Nat) => (i : Rat)⟩ [0, 10, 20, 50, 80, 110]
+      = [(80, 30), (110, 30)] ∧
+    (like true Reduce.mean.apply (.cont ⟨65, 5, (List.range 20).map fun (i : Nat) => (i : Rat)⟩)
+        (.ts [(0, 0), (10, 1), (20, 2), (50, 3), (80, 4), (110, 5)])).toOption.map (·.1)
+      = some [(110, 11 / 2)] := by decide +kernel
+
+/-! ## Arithmetic between two channels -/
+
+/-- `a <op> b` answers only on identical timestamps; the result keeps those timestamps and its data
+    are the element-wise results (one per sample of `a`). -/
+theorem arith_spec (op : Op) (a b : Src) (ha : a.wf) (hb : b.wf) (r : Src) (h : arith op a b = .ok r) :
+    b.timestamps = a.timestamps ∧ r.timestamps = a.timestamps ∧
+      r.data = List.zipWith op.apply a.data b.data ∧ r.data.length = a.data.length :=
+  arith_ok op a b ha hb r h
+
+/-- Different timestamps are refused (`RuntimeError`), identical ones never are. -/
+theorem arith_refused (op : Op) (a b : Src) :
+    (b.timestamps ≠ a.timestamps → arith op a b = .error .runtime) ∧
+      (b.timestamps = a.timestamps → ∃ r, arith op a b = .ok r) := by
+  unfold arith
+  constructor
+  · intro h; rw [if_pos h]
+  · intro h; rw [if_neg (by simp [h])]; exact ⟨_, rfl⟩
+
+example : (arith .div (.cont ⟨100, 10, [1, 2]⟩) (.ts [(100, 3), (110, 4)])).toOption.map (·.samples)
+    = some [(100, 1 / 3), (110, 1 / 2)] := by decide +kernel
+example : arith .add (.cont ⟨100, 10, [1, 2]⟩) (.ts [(100, 3), (111, 4)]) = .error .runtime := by decide +kernel
+
 end Verif.C04
